@@ -379,6 +379,7 @@ func matchCase(env *vlib.Env, idx int, rep *vlib.Reporter) {
 		rep.Violationf("filter:underivable", map[string]any{"definition": d.ref.String(), "error": ferr.Error()}, "a definition that passes Validate has no filter query: %v", ferr)
 	}
 	logs := logsFor(r, d, 160)
+	poisons := poisonLogs(d)
 	for i := range logs {
 		gl := &logs[i]
 		desc := fmt.Sprintf("def=%x log={addr=%x topics=%d data=%x}", enc, gl.log.Address[:4], len(gl.log.Topics), gl.log.Data)
@@ -431,7 +432,49 @@ func matchCase(env *vlib.Env, idx int, rep *vlib.Reporter) {
 		if idx == 0 && i < 2 {
 			rep.Sample(map[string]any{"family": "match", "definition": d.ref.String(), "log_shape": gl.shape, "match": m, "wellformed": wf})
 		}
+		// Match is a function of (definition, log): the answer must not depend on what was matched
+		// before. Poison logs put all-ones, and every predicate's own argument, into every word.
+		if err == nil && i%4 == 0 {
+			for pi, poison := range poisons {
+				_, _ = d.repo.Match(poison)
+				m2, err2 := d.repo.Match(&gl.log)
+				rep.Obs("history_independence_checks", 1)
+				if err2 != nil || m2 != m {
+					rep.Violationf("match:depends-on-history:"+shapeKey(gl.shape), map[string]any{"input": desc, "definition": d.ref.String(), "first": m, "after_poison": m2, "poison": pi},
+						"Match answered %t, and %t (err %v) for the same log after another log had been matched", m, m2, err2)
+					break
+				}
+			}
+		}
 	}
+}
+
+// poisonLogs builds logs of the definition's contract whose every data word (and topic) is all
+// ones, or equals a predicate's argument.
+func poisonLogs(d genDef) []*types.Log {
+	mk := func(w []byte) *types.Log {
+		l := &types.Log{Address: d.repo.Contract}
+		for t := 0; t < 4; t++ {
+			l.Topics = append(l.Topics, common.BytesToHash(w))
+		}
+		for k := 0; k < 24; k++ {
+			l.Data = append(l.Data, common.LeftPadBytes(w, 32)[:32]...)
+		}
+		return l
+	}
+	out := []*types.Log{mk(bytes.Repeat([]byte{0xff}, 32))}
+	for _, p := range d.ref.Predicates {
+		switch {
+		case p.Int != nil && p.Int.Sign() >= 0 && len(p.Int.Bytes()) <= 32:
+			out = append(out, mk(p.Int.Bytes()))
+		case len(p.Bytes) > 0 && len(p.Bytes) <= 32:
+			out = append(out, mk(p.Bytes))
+		}
+	}
+	if len(out) > 3 {
+		out = out[:3]
+	}
+	return out
 }
 
 func shapeKey(s string) string {
